@@ -236,7 +236,8 @@ func (its *jsonPrimitive) getTargetByPaths(paths []string) (jsonType, errors.Ord
 func (its *jsonPrimitive) getTargetFromPatch(path string) (jsonType, string, errors.OrdaError) {
 	paths := strings.Split(path, "/")
 
-	if len(paths) < 1 {
+	if len(paths) < 2 {
+		// "" addresses the whole document (e.g. a target that is not a JSON object): not patchable
 		return nil, "", errors.DatatypeInvalidPatch.New(its.common.L(), "incorrect path: %v", path)
 	}
 	// the path is a JSON pointer (RFC 6901): "~1" stands for "/" and "~0" for "~" inside a token
